@@ -257,4 +257,6 @@ def witness(failure, ctx):
                 "input": {"opcode": op, "builder_has_terminator_method": op in sets["builder_terminator"]}}
     if name == "base_classes_disjoint":
         return {"found": False, "exhaustive": False}
-    return None
+    # no particular obligation (the unit became unverifiable): every predicate on every declared opcode against its spec class
+    return {"found": bool(mism), "exhaustive": True, "input": mism[:20], "swept_opcodes": n,
+            "how": "vreplay reflect-dump: all 13 real predicates on all declared opcodes vs their spec classes"}
